@@ -16,6 +16,9 @@ type KeyCase struct {
 	BusySinkMs int `json:"busy_sink_ms,omitempty"`
 	// Bystander: steps played on a second device of the same configuration before the history starts (see EngineOpts)
 	Bystander []Step `json:"bystander,omitempty"`
+	// QueueCap / ReaderDelayUs: the MIDI output queue has this capacity and a reader that takes this long per message
+	QueueCap      int `json:"queue_cap,omitempty"`
+	ReaderDelayUs int `json:"reader_delay_us,omitempty"`
 }
 
 type walkStep struct {
@@ -61,7 +64,7 @@ func doWalk(prop string, c *KeyCase) (*walk, *Violation) {
 		return nil, v
 	}
 	w := &walk{Case: c, Cfg: cfg, TOML: text, Model: NewModel(c.D)}
-	w.Run = RunDevice(cfg, c.D, c.Steps, EngineOpts{NoLogs: c.NoLogs, BusySinkMs: c.BusySinkMs, Bystander: c.Bystander})
+	w.Run = RunDevice(cfg, c.D, c.Steps, EngineOpts{NoLogs: c.NoLogs, BusySinkMs: c.BusySinkMs, Bystander: c.Bystander, QueueCap: c.QueueCap, ReaderDelayUs: c.ReaderDelayUs})
 	if w.Run.Panic != "" {
 		return w, violation(prop, "panic", "", "device code panicked: %s", w.Run.Panic)
 	}
@@ -95,6 +98,13 @@ func doWalk(prop string, c *KeyCase) (*walk, *Violation) {
 			ws.Model = ModelStep{Kind: "axis"}
 		default:
 			ws.Model = ModelStep{Kind: "ignored"}
+			// key auto-repeat, events of other types (scan codes, LEDs, SYN_DROPPED ...) and MIDI input are not key or axis
+			// events: whatever the property, they produce no MIDI output and change no state
+			// (EV_SYN events are left out of this: silencing the device when the kernel reports dropped events would be a
+			// legitimate reaction, and no property forbids it - the receiver-side oracles judge what comes of it)
+			if len(ws.Res.Out) != 0 && !(s.T == "other" && s.Typ == 0) {
+				return w, violation(prop, "non-key-event-emits", s.T, "step %d (%s) is neither a key nor an axis event but emitted %s", i, s, fmtMsgs(ws.Res.Out))
+			}
 		}
 		ws.Post = w.Model.ModelState
 		ws.KeysDownAfter = len(down)
@@ -482,7 +492,13 @@ type C13Case struct {
 	At     int    `json:"at"`
 	Hold   int    `json:"hold"`
 	NoLogs bool   `json:"nologs"`
+	// ViaAxis: the inserted panic is not the panic key but a push of the hat that the description binds to the panic action
+	// ({type = "action", action = "panic"}); +1 / -1: the direction that is bound. 0: the panic key.
+	ViaAxis int `json:"via_axis,omitempty"`
 }
+
+// c13PanicAxis is the axis code (ABS_HAT0Y) that carries the panic action in the worlds that have one.
+const c13PanicAxis = 0x11
 
 func panicCode(d *Desc) (uint16, bool) {
 	for _, a := range d.Actions {
@@ -511,11 +527,19 @@ func checkC13(c C13Case) (bool, *Violation) {
 	var origin []int
 	for i := 0; i <= len(c.Steps); i++ {
 		if i == at {
-			with = append(with, Step{T: "key", Code: pc, Val: 1})
+			if c.ViaAxis != 0 {
+				with = append(with, Step{T: "abs", Code: c13PanicAxis, Val: int32(c.ViaAxis)})
+			} else {
+				with = append(with, Step{T: "key", Code: pc, Val: 1})
+			}
 			origin = append(origin, -1)
 		}
 		if i == rel {
-			with = append(with, Step{T: "key", Code: pc, Val: 0})
+			if c.ViaAxis != 0 {
+				with = append(with, Step{T: "abs", Code: c13PanicAxis, Val: 0})
+			} else {
+				with = append(with, Step{T: "key", Code: pc, Val: 0})
+			}
 			origin = append(origin, -2)
 		}
 		if i < len(c.Steps) {
@@ -555,6 +579,14 @@ func checkC13(c C13Case) (bool, *Violation) {
 		}
 		switch origin[i] {
 		case -1:
+			if c.ViaAxis != 0 {
+				// the panic action triggered by an axis owes the same burst as the panic key
+				classify("panic triggered by an axis")
+				if bv := checkPanicBurst(i, ws); bv != nil {
+					bv.Message = "panic triggered by pushing the hat bound to the panic action: " + bv.Message
+					return true, bv
+				}
+			}
 			panicSeen = true
 			classifyIf(ww.Model.pairHeldAt(i, ww), "panic while both keys of an up/down pair are held")
 			for code, hn := range ww.Model.perKeySnapshot(i, ww) {
